@@ -1,2 +1,176 @@
-(* C12 — placeholder while the correspondence is brought up; theorems follow. *)
-From GP Require Import Base C12Model.
+(* C12 — assemblers sharing one stream pool are safe under every interleaving.
+   Property theorems only; each is closed by a lemma of Proofs/C12Proofs.v or, for the
+   refutations, by evaluating the model on an explicit schedule (list of thread ids).
+
+   The theorems quantify over any number of threads, any programs (packet assignment) and
+   every reachable state of the interleaving semantics of Model/C12Model.v; they are
+   parametric in the per-connection machine (cstate, cinit, cclosed, process, flush).
+   PARTIAL with respect to the property text: the Go memory model, the scheduler and the
+   race detector are outside the model; "no data race" is the lockset statement below. *)
+From GP Require Import Base C12Model C12Proofs.
+Open Scope nat_scope.
+
+Section Statements.
+Variable cstate : Type.
+Variable cinit : cstate.
+Variable cclosed : cstate -> bool.
+Variable process : cstate -> bool -> packet -> cstate * list cevent * bool.
+Variable flush : cstate -> cstate * list cevent * bool.
+Notation Reach := (reachable cstate cinit cclosed process flush).
+
+(* full-strength statements, as properties of a configuration *)
+Definition C12_no_panic_stmt (g : config) : Prop :=
+  forall progs s, Reach g progs s -> forall t, t_pc (thr s t) <> PPanic.
+Definition C12_progress_stmt (g : config) : Prop :=
+  forall progs s, Reach g progs s ->
+    (all_done s = true \/ any_enabled cstate cinit s = true) /\
+    (forall t, enabled cstate cinit s t = true -> exists s', exec cstate cinit cclosed process flush g s t = Some s').
+Definition C12_mutex_stmt (g : config) : Prop :=
+  forall progs s t s', Reach g progs s -> exec cstate cinit cclosed process flush g s t = Some s' ->
+    forall t' sid c e, In (ECall t' sid c e) (s_log s') ->
+      In (ECall t' sid c e) (s_log s) \/
+      (t' = t /\ sid = c_stream (obj cstate cinit s c) /\ c_lock (obj cstate cinit s c) = None /\
+       exists w, t_pc (thr s t) = PWant c w).
+Definition C12_lockset_stmt (g : config) : Prop :=
+  forall progs s, Reach g progs s -> has_race cstate cinit g s = false.
+Definition C12_inorder_stmt (g : config) : Prop :=
+  forall progs s, Reach g progs s -> chk_right_stream g s = true.
+Definition C12_complete_once_stmt (g : config) : Prop :=
+  forall progs s, Reach g progs s ->
+    chk_complete_most_once s = true /\
+    (all_done s = true -> s_conns s = [] -> chk_complete_once_final s = true).
+End Statements.
+
+(* ---------------------------------------------------------------- proved, for every machine *)
+
+(* no thread ever reaches a panic site — tcpassembly, and reassembly once the FIXME panic is gone *)
+Theorem C12_no_panic : forall cstate cinit cclosed process flush g,
+  is_rsm g && g_fixme g = false -> C12_no_panic_stmt cstate cinit cclosed process flush g.
+Proof. intros cs ci cc pr fl g G progs s R. exact (no_panic_reachable cs ci cc pr fl g progs s G R). Qed.
+Print Assumptions C12_no_panic.
+
+(* no deadlock: unless every thread has returned some thread can step, and an enabled thread
+   does step (lock order connection -> pool; pool sections never block) *)
+Theorem C12_progress : forall cstate cinit cclosed process flush g,
+  C12_progress_stmt cstate cinit cclosed process flush g.
+Proof.
+  intros cs ci cc pr fl g progs s R. split.
+  - exact (progress cs ci cc pr fl g progs s R).
+  - intros t En. exact (enabled_steps cs ci cc pr fl g s t En).
+Qed.
+Print Assumptions C12_progress.
+
+(* every stream callback is made by a step that takes the (free) lock of the connection
+   object that owns the stream at that moment *)
+Theorem C12_mutex : forall cstate cinit cclosed process flush g,
+  C12_mutex_stmt cstate cinit cclosed process flush g.
+Proof. intros cs ci cc pr fl g progs s t s' _ E. exact (mutex_step cs ci cc pr fl g s t s' E). Qed.
+Print Assumptions C12_mutex.
+
+(* a held connection lock belongs to a thread inside that connection's remove section *)
+Theorem C12_lock_owner : forall cstate cinit cclosed process flush g progs s,
+  reachable cstate cinit cclosed process flush g progs s ->
+  forall c t, c_lock (obj cstate cinit s c) = Some t -> exists k, t_pc (thr s t) = PRemove c k.
+Proof. intros cs ci cc pr fl g progs s R. exact (inv_lock_reachable cs ci cc pr fl g progs s R). Qed.
+Print Assumptions C12_lock_owner.
+
+(* ---------------------------------------------------------------- witnesses *)
+Definition kA0 := mkKey 0 false. Definition kA1 := mkKey 0 true.
+Definition kB0 := mkKey 1 false. Definition kD0 := mkKey 3 false.
+Definition syn (k : key) := OPkt (mkPkt k true false 1000%Z []).
+Definition fin1 (k : key) := OPkt (mkPkt k false true 1001%Z []).
+Definition dat (k : key) := OPkt (mkPkt k false false 1001%Z [16; 17]%Z).
+
+Definition reach_tcp := reachable tconn tc_init tc_closed tcp_process tcp_flush.
+Definition reach_rsm := reachable rconn rc_init rc_closed rsm_process rsm_flush.
+Definition sched_tcp g progs sched := fst (run_sched tconn tc_init tc_closed tcp_process tcp_flush g (init tconn progs) false sched).
+Definition sched_rsm g progs sched := fst (run_sched rconn rc_init rc_closed rsm_process rsm_flush g (init rconn progs) false sched).
+
+Lemma sched_tcp_reach g progs sched : reach_tcp g progs (sched_tcp g progs sched).
+Proof. apply run_sched_reachable. constructor. Qed.
+Lemma sched_rsm_reach g progs sched : reach_rsm g progs (sched_rsm g progs sched).
+Proof. apply run_sched_reachable. constructor. Qed.
+
+(* the unchanged reassembly code panics: first packets of the two directions, schedule 0,1,0,0,1 *)
+Definition w_fixme_progs := [[syn kA0]; [syn kA1]].
+Definition w_fixme_sched := [0; 1; 0; 0; 1].
+Theorem C12_no_panic_refuted :
+  ~ C12_no_panic_stmt rconn rc_init rc_closed rsm_process rsm_flush cfg_rsm_orig.
+Proof.
+  intros H. apply (H w_fixme_progs _ (sched_rsm_reach cfg_rsm_orig w_fixme_progs w_fixme_sched) 1).
+  vm_compute. reflexivity.
+Qed.
+Print Assumptions C12_no_panic_refuted.
+(* the same schedule on the repaired code: both directions end up on one connection entry *)
+Example C12_no_panic_nonvacuous :
+  let s := sched_rsm cfg_rsm w_fixme_progs (w_fixme_sched ++ [1]) in
+  s_conns s = [(kA0, 0)] /\ chk_no_panic s = true /\ all_done s = true /\ length (s_log s) = 6.
+Proof. vm_compute. repeat split; reflexivity. Qed.
+
+(* stale pointer to a closed, recycled connection object.
+   tcpassembly: 0 = [SYN a0; FIN a0; SYN b0], 1 = [data a0] *)
+Definition w_rec_tcp := [[syn kA0; fin1 kA0; syn kB0]; [dat kA0]].
+Definition w_rec_rsm := [[syn kA0; OFlush; syn kB0]; [dat kA0]].
+Definition w_rec_race := [0; 0; 0; 0; 0; 1; 0; 0].
+Definition w_rec_wrong := [0; 0; 0; 0; 0; 1; 0; 0; 0; 0; 1].
+
+Theorem C12_lockset_refuted_tcpassembly :
+  ~ C12_lockset_stmt tconn tc_init tc_closed tcp_process tcp_flush cfg_tcp.
+Proof.
+  intros H. specialize (H w_rec_tcp _ (sched_tcp_reach cfg_tcp w_rec_tcp w_rec_race)).
+  vm_compute in H. discriminate.
+Qed.
+Theorem C12_lockset_refuted_reassembly :
+  ~ C12_lockset_stmt rconn rc_init rc_closed rsm_process rsm_flush cfg_rsm.
+Proof.
+  intros H. specialize (H w_rec_rsm _ (sched_rsm_reach cfg_rsm w_rec_rsm w_rec_race)).
+  vm_compute in H. discriminate.
+Qed.
+Print Assumptions C12_lockset_refuted_tcpassembly.
+Print Assumptions C12_lockset_refuted_reassembly.
+
+Theorem C12_inorder_refuted_tcpassembly :
+  ~ C12_inorder_stmt tconn tc_init tc_closed tcp_process tcp_flush cfg_tcp.
+Proof.
+  intros H. specialize (H w_rec_tcp _ (sched_tcp_reach cfg_tcp w_rec_tcp w_rec_wrong)).
+  vm_compute in H. discriminate.
+Qed.
+Theorem C12_inorder_refuted_reassembly :
+  ~ C12_inorder_stmt rconn rc_init rc_closed rsm_process rsm_flush cfg_rsm.
+Proof.
+  intros H. specialize (H w_rec_rsm _ (sched_rsm_reach cfg_rsm w_rec_rsm w_rec_wrong)).
+  vm_compute in H. discriminate.
+Qed.
+Print Assumptions C12_inorder_refuted_tcpassembly.
+Print Assumptions C12_inorder_refuted_reassembly.
+
+(* a recycled object that lost the insert race is closed by a stale FlushAll; its remove
+   deletes the winner's entry, whose stream is never completed (thread 3 is the final FlushAll) *)
+Definition w_evict := [[syn kA0; syn kD0; OFlush; syn kB0]; [OFlush]; [syn kB0]; [OFlush]].
+Definition w_evict_tcp_sched := [0;0;0;0;0;0;0;0;0;0;2;2;1;0;0;1;1;0;0;2;2;0;0;2;1;1;2;3].
+Definition w_evict_rsm_sched := [0;0;0;0;1;0;0;0;0;0;0;0;0;2;0;0;2;1;1;2;3].
+Theorem C12_complete_once_refuted_tcpassembly :
+  ~ C12_complete_once_stmt tconn tc_init tc_closed tcp_process tcp_flush cfg_tcp.
+Proof.
+  intros H. destruct (H w_evict _ (sched_tcp_reach cfg_tcp w_evict w_evict_tcp_sched)) as [_ H2].
+  assert (E : chk_complete_once_final (sched_tcp cfg_tcp w_evict w_evict_tcp_sched) = true)
+    by (apply H2; vm_compute; reflexivity).
+  vm_compute in E. discriminate.
+Qed.
+Theorem C12_complete_once_refuted_reassembly :
+  ~ C12_complete_once_stmt rconn rc_init rc_closed rsm_process rsm_flush cfg_rsm.
+Proof.
+  intros H. destruct (H w_evict _ (sched_rsm_reach cfg_rsm w_evict w_evict_rsm_sched)) as [_ H2].
+  assert (E : chk_complete_once_final (sched_rsm cfg_rsm w_evict w_evict_rsm_sched) = true)
+    by (apply H2; vm_compute; reflexivity).
+  vm_compute in E. discriminate.
+Qed.
+Print Assumptions C12_complete_once_refuted_tcpassembly.
+Print Assumptions C12_complete_once_refuted_reassembly.
+
+(* non-vacuity of the invariants: the witness states are reachable and non-trivial *)
+Example C12_progress_nonvacuous :
+  let s := sched_tcp cfg_tcp w_rec_tcp [0; 0; 0; 0; 0; 1] in
+  all_done s = false /\ enabled tconn tc_init s 1 = false /\ enabled tconn tc_init s 0 = true /\
+  c_lock (obj tconn tc_init s 0) = Some 0.
+Proof. vm_compute. repeat split; reflexivity. Qed.
